@@ -102,6 +102,12 @@ CHECKS = {
         text="N=2/3 real threads do get_converter()+battery as first use under a cooperative scheduler (settrace line events, cooperative replacement of package locks, deadlock detection); every schedule within the preemption bound is executed and compared with the sequential reference. All creation histories up to length 3/4 over {fresh, user-supplied, detailed_validation off, re-register, user hook} in freshly forked processes, plus 100 sequential creations.",
         note="Library code (attrs/cattrs/typing) is atomic; switches only at line boundaries of lsprotocol's own non-generated modules; functions audited (AST) as converter-local run atomically.",
         ref="3/C19"),
+    "C17": dict(
+        engine="BISIM",
+        technique="exhaustive enumeration of every vector the plugin emits and of every (valid, value) pair of its generate functions per type expression, each judged by the strict reference validator and (True vectors) executed on the Python converter",
+        text="All files produced by the real generate() for the committed model: name pattern, hash, message class, label == strict MM validity, a True vector per message class, every True vector structured by the converter; plus every pair yielded by generate_for_type for every distinct type expression (reaches label decisions that never make it into a file).",
+        note="Strict reading; property-less objects are open; responses may carry result and error; metamodel openness of enums.",
+        ref="3/C17"),
 }
 
 PENDING_REASON = "check not built yet in this session (planned, see DESIGN.md section 3); not claimed until it exists"
@@ -156,7 +162,7 @@ NOT_APPLICABLE = {}
 ENGINES = [
     {"name": "MM", "path": "lspverif/mm.py", "serves_properties": [], "kind_free_text": "reference model of the LSP metamodel (oracle)"},
     {"name": "VSE", "path": "lspverif/vse.py", "serves_properties": ["C01", "C02", "C03", "C10", "C11", "C13", "C14", "C15"], "kind_free_text": "deviation-bounded exhaustive value-space explorer over the metamodel grammar"},
-    {"name": "BISIM", "path": "lspverif/img_py.py", "serves_properties": ["C04", "C05", "C09"], "kind_free_text": "product-graph exploration metamodel x generated artefact, simulation checked in both directions"},
+    {"name": "BISIM", "path": "lspverif/img_py.py", "serves_properties": ["C04", "C05", "C09", "C17"], "kind_free_text": "product-graph exploration metamodel x generated artefact, simulation checked in both directions"},
     {"name": "HIST", "path": "lspverif/hist.py", "serves_properties": ["C16", "C18"], "kind_free_text": "exhaustive enumeration of event histories on the real generator entry points with nondeterminism seams"},
     {"name": "SCHED", "path": "lspverif/sched.py", "serves_properties": ["C19"], "kind_free_text": "stateless schedule explorer for real Python threads (settrace + semaphore baton), preemption-bounded"},
     {"name": "GRID", "path": "lspverif/props/c12.py", "serves_properties": ["C12", "C20"], "kind_free_text": "exhaustive boundary-grid enumeration on the real classes and validators"},
